@@ -82,17 +82,13 @@ def schemeOf : Kind → Option (String × String)
   | .reprFn => some Generated.c17ReprAffix
   | _ => none
 
-/-- a `_x_key` / `x_repr` name against an `__attr_…_x` name: the one kind of pair that can coincide -/
-def isCross (k k' : Kind) : Bool :=
-  ((k == .key || k == .reprFn) && isInitScheme k') || ((k' == .key || k' == .reprFn) && isInitScheme k)
-
-/-- all pairs of different schemes, except the cross pairs, have incompatible affixes (finite check
-    on the affixes the source has now) -/
+/-- all pairs of different schemes have incompatible affixes (finite check on the affixes the
+    source has now: six distinct prefixes inside the `__attr_` namespace) -/
 theorem schemes_incompatible :
-    ∀ k k' : Kind, ∀ a b, schemeOf k = some a → schemeOf k' = some b → k ≠ k' → isCross k k' = false →
+    ∀ k k' : Kind, ∀ a b, schemeOf k = some a → schemeOf k' = some b → k ≠ k' →
       incompatible a b = true := by
-  intro k k' a b ha hb hne hc
-  cases k <;> cases k' <;> simp_all [schemeOf, isCross, isInitScheme] <;> subst ha <;> subst hb <;> decide
+  intro k k' a b ha hb hne
+  cases k <;> cases k' <;> simp_all [schemeOf] <;> subst ha <;> subst hb <;> decide
 
 /-- no fixed helper name fits any scheme -/
 theorem fixed_fit_no_scheme :
@@ -100,38 +96,7 @@ theorem fixed_fit_no_scheme :
   intro k a ha
   cases k <;> simp_all [schemeOf] <;> subst ha <;> decide
 
-/-- nor does `NotImplemented` -/
-theorem notImplemented_fits_no_scheme :
-    ∀ k : Kind, ∀ a, schemeOf k = some a → fits a "NotImplemented" = false := by
-  intro k a ha
-  cases k <;> simp_all [schemeOf] <;> subst ha <;> decide
-
 theorem hashKey_eq_eqKey : Generated.c17HashKeyAffix = Generated.c17EqKeyAffix := by decide
 theorem reprCall_eq_repr : Generated.c17ReprCallAffix = Generated.c17ReprAffix := by decide
-
-/-- a private-looking field name is needed for a cross coincidence: if `n` does not start with an
-    underscore, `_n_key` is not an `__attr_…` name -/
-theorem key_ne_initScheme_of_public (k : Kind) (a : String × String) (hk : isInitScheme k = true)
-    (ha : schemeOf k = some a) (n m : String) (hn : n.toList.head? ≠ some '_') :
-    affix Generated.c17EqKeyAffix n ≠ affix a m := by
-  intro he
-  have h' := congrArg String.toList he
-  rw [affix_toList, affix_toList] at h'
-  cases k <;> simp_all [schemeOf, isInitScheme] <;> subst ha <;>
-    simp [Generated.c17EqKeyAffix, Generated.c17FactoryAffix, Generated.c17ValidatorAffix,
-          Generated.c17AttributeAffix, Generated.c17ConverterAffix] at h' <;>
-    (rcases hl : n.toList with _ | ⟨c, rest⟩ <;> simp_all)
-
-/-- and `n_repr` is not an `__attr_…` name unless `n` starts with two underscores -/
-theorem repr_ne_initScheme_of_public (k : Kind) (a : String × String) (hk : isInitScheme k = true)
-    (ha : schemeOf k = some a) (n m : String) (hn : n.toList.head? ≠ some '_') :
-    affix Generated.c17ReprAffix n ≠ affix a m := by
-  intro he
-  have h' := congrArg String.toList he
-  rw [affix_toList, affix_toList] at h'
-  cases k <;> simp_all [schemeOf, isInitScheme] <;> subst ha <;>
-    simp [Generated.c17ReprAffix, Generated.c17FactoryAffix, Generated.c17ValidatorAffix,
-          Generated.c17AttributeAffix, Generated.c17ConverterAffix] at h' <;>
-    (rcases hl : n.toList with _ | ⟨c, rest⟩ <;> simp_all)
 
 end Attrs.C17
